@@ -183,6 +183,37 @@ def run_races(ctx, out, jobs, clauses, label):
     return stats, index
 
 
+def binding_selftest(out, index):
+    """Demonstrates the binding: a recorded trace with ONE corrupted field, or with ONE event removed, must be rejected by TLC."""
+    import copy
+
+    tid = sorted(index)[0]
+    job, trace = index[tid]
+    if len(trace["events"]) < 12:
+        return
+    mutants = []
+    t1 = copy.deepcopy(trace)
+    t1["id"] = "bind-flip"
+    k = next(i for i, e in enumerate(t1["events"]) if e["ev"] == "WRecvDrive")
+    t1["events"][k]["st"]["wk"][t1["events"][k]["arg"] - 1]["sd"] = False  # the handler's effect is hidden
+    mutants.append(t1)
+    t2 = copy.deepcopy(trace)
+    t2["id"] = "bind-drop"
+    k2 = next(i for i, e in enumerate(t2["events"]) if e["ev"] == "DRecvJoinPointReached")
+    del t2["events"][k2]  # one event is missing
+    mutants.append(t2)
+    t3 = copy.deepcopy(trace)
+    t3["id"] = "bind-count"
+    k3 = next(i for i, e in enumerate(t3["events"]) if e["ev"] == "DRecvJoinPointReached")
+    t3["events"][k3]["st"]["drv"]["completed"] += 1  # a scalar is off by one
+    mutants.append(t3)
+    v = tracecheck.validate("RaceDriver", "TraceRaceDriver", "TraceRaceDriver.cfg", mutants, name="racebind", cfg_text=trace_cfg(job["test_mode"], job["qmax"]))
+    missed = [m["id"] for m in mutants if m["id"] not in v.l2 and m["id"] not in v.l1]
+    if missed:
+        raise tlc.MachineryError("binding self-test failed: corrupted traces accepted: %s" % missed)
+    out.extra["binding_selftest"] = "3 corrupted copies of a recorded trace (hidden handler effect, removed event, counter off by one) rejected by TLC"
+
+
 def replay_case(ctx, case, clauses, pid):
     from ..core import Outcome
 
